@@ -21,7 +21,7 @@ from common import Coverage, Driver, rng, shrink_list, violation
 
 # --------------------------------------------------------------------------- events
 IP_ALPHA = ["S1.0", "S1025.0", "N", "R0", "F1", "C", "X", "T", "D", "RC", "O0"]
-BLE_ALPHA = ["S1.0", "S30.1", "N", "R0", "F1", "C", "X", "T", "D", "RC", "O0"]
+BLE_ALPHA = ["S1.0", "S30.1", "N", "R0", "F1", "C", "X", "T", "D", "RC", "RD", "O0"]
 COAP_ALPHA = ["S1.0", "N", "R0", "F1", "C", "X", "T", "RC", "EN", "ER0", "EC"]
 ALPHA = {"ip": IP_ALPHA, "ble": BLE_ALPHA, "coap": COAP_ALPHA}
 # the 7-symbol core used for the deepest level of each sweep
@@ -32,7 +32,7 @@ COAP_EVT = ["EN", "ER0", "EF1", "EC", "S1.0", "N"]     # event channel interleav
 
 
 def parse_ev(t):
-    if t in ("N", "C", "X", "T", "D", "RC", "EN", "EC"):
+    if t in ("N", "C", "X", "T", "D", "RC", "RD", "EN", "EC"):
         return (t, 0, 0)
     if t.startswith("ER"):
         return ("ER", int(t[2:]), 0)
@@ -80,13 +80,29 @@ class Trace:
         self.ct2nid = {}      # ciphertext produced by the implementation -> (e, d, n)
         self.ct2pt = {}
         self.frames = {}      # ciphertext produced by the accessory -> (e, d, n)
+        self.nkeys = {}       # direction -> number of distinct session key byte strings seen
+        self.current = {}     # direction -> bytes of the session key object built last
 
     def register(self, epoch, d):
         k = key_for(epoch, d)
         self.keys[k] = (epoch, d)
         return k
 
+    def session_key(self, key, d):
+        """A session key object was built by the implementation (BLE EncryptionKey/DecryptionKey): the epoch of
+        a key is the order of first appearance of its BYTES, so a key that is used for a second session keeps
+        its epoch and every reused nonce shows up as a duplicate."""
+        key = bytes(key)
+        if key not in self.keys:
+            self.keys[key] = (self.nkeys.get(d, 0), d)
+            self.nkeys[d] = self.nkeys.get(d, 0) + 1
+        else:
+            self.items.append(("rekey",) + self.keys[key])
+        self.current[d] = key
+
     def sealed(self, key, nonce, pt, ct):
+        if bytes(key) not in self.keys:
+            return                      # not a session key (pair-verify handshake AEAD)
         e, d = self.keys.get(bytes(key), (-1, "?"))
         n = nonce_int(nonce)
         self.items.append(("seal", e, d, n))
@@ -94,6 +110,8 @@ class Trace:
         self.ct2pt[bytes(ct)] = bytes(pt)
 
     def opened(self, key, nonce, ct, ok):
+        if bytes(key) not in self.keys:
+            return
         e, d = self.keys.get(bytes(key), (-1, "?"))
         self.items.append(("open", e, d, nonce_int(nonce), 1 if ok else 0))
         if ok:
@@ -169,6 +187,21 @@ def patch_ciphers():
             TRACE.opened(self._c06_key, nonce, ciphertext, True)
         return pt
 
+    import aiohomekit.controller.ble.key as bk
+    ek_init, dk_init = bk.EncryptionKey.__init__, bk.DecryptionKey.__init__
+
+    def ek(self, key):
+        ek_init(self, key)
+        if TRACE is not None:
+            TRACE.session_key(key, "c")
+
+    def dk(self, key):
+        dk_init(self, key)
+        if TRACE is not None:
+            TRACE.session_key(key, "a")
+
+    bk.EncryptionKey.__init__ = ek
+    bk.DecryptionKey.__init__ = dk
     cc.ChaCha20Poly1305Encryptor.__init__ = enc_init
     cc.ChaCha20Poly1305Encryptor.encrypt = enc
     cc.ChaCha20Poly1305Decryptor.__init__ = dec_init
@@ -412,7 +445,7 @@ class IpRun:
             self.loop.vt += 31.0
         elif k == "D":
             self.tr.peer_eof()
-        elif k == "RC":
+        elif k in ("RC", "RD"):
             self.tr.close()
             settle(self.loop)
             self.reqs.collect()
@@ -424,30 +457,58 @@ class IpRun:
 
 
 # --------------------------------------------------------------------------- BLE
+PAIR_VERIFY_UUID = "0000004E-0000-1000-8000-0026BB765291"
+_BLE_IDS = None
+
+
+def ble_identities():
+    """Deterministic long-term keys of the controller and the reference accessory (per process)."""
+    global _BLE_IDS
+    if _BLE_IDS is None:
+        from cryptography.hazmat.primitives import serialization
+        from cryptography.hazmat.primitives.asymmetric.ed25519 import Ed25519PrivateKey
+        raw = dict(encoding=serialization.Encoding.Raw, format=serialization.PublicFormat.Raw)
+        acc_ltsk = Ed25519PrivateKey.from_private_bytes(b"\x11" * 32)
+        ctrl_seed = b"\x22" * 32
+        ctrl_ltpk = Ed25519PrivateKey.from_private_bytes(ctrl_seed).public_key().public_bytes(**raw)
+        _BLE_IDS = dict(acc_id=b"00:00:00:00:00:01", acc_ltsk=acc_ltsk, acc_ltpk=acc_ltsk.public_key().public_bytes(**raw),
+                        ctrl_id=b"c06-controller", ctrl_seed=ctrl_seed, ctrl_ltpk=ctrl_ltpk)
+    return _BLE_IDS
+
+
 class FakeGatt:
-    """Scripted GATT client: writes complete at once and are recorded; a read blocks until the history
-    supplies a frame, an error, or a cancellation."""
+    """Scripted GATT client.  Data characteristic: writes complete at once and are recorded; a read blocks
+    until the history supplies a frame, an error, or a cancellation.  Pair-verify characteristic: the
+    (unencrypted) HAP PDUs are answered at once by the independent reference accessory (ref/c06acc.py)."""
 
     def __init__(self, run, cb):
         self.run, self.cb = run, cb
         self.is_connected = True
         self.address = "AA:BB:CC:DD:EE:FF"
         self.read_waiter = None
-        self.handle = types.SimpleNamespace(properties=["read", "write"], max_write_without_response_size=0, uuid="x")
+        self.handle = types.SimpleNamespace(properties=["read", "write"], max_write_without_response_size=0, uuid="data")
+        self.pv_handle = types.SimpleNamespace(properties=["read", "write"], max_write_without_response_size=0, uuid="pair-verify")
 
     async def get_characteristic(self, service_type, char_type, iid=None):
+        if str(char_type).upper() == PAIR_VERIFY_UUID:
+            return self.pv_handle
         return self.handle
 
     async def get_characteristic_iid(self, char):
-        return 1
+        return 2 if char is self.pv_handle else 7
 
     def determine_fragment_size(self, overhead, handle):
-        return 43 - overhead
+        return 43 - overhead if overhead else 512
 
     async def write_gatt_char(self, handle, data, response=None):
-        self.run.written(bytes(data))
+        if handle is self.pv_handle:
+            self.run.pv_write(bytes(data))
+        else:
+            self.run.written(bytes(data))
 
     async def read_gatt_char(self, handle):
+        if handle is self.pv_handle:
+            return bytearray(self.run.pv_read())
         self.read_waiter = self.run.loop.create_future()
         try:
             return await self.read_waiter
@@ -467,18 +528,31 @@ class FakeGatt:
 
 
 class BleRun:
+    """Real BlePairing.  Reconnect = the real _populate_accessories_and_characteristics -> _ensure_connected
+    (seam: establish_connection) -> _async_pair_verify -> drive_pairing_state_machine -> get_session_keys /
+    resume_m1 / resume_m3 against the reference accessory, which derives ITS session keys itself.
+    'RC': the accessory accepts a pair-resume when it still knows the session; 'RD': it has forgotten its
+    sessions, declines, and a full pair-verify follows.  The controller-side epoch of a key is the order of
+    first appearance of its BYTES in an EncryptionKey/DecryptionKey, so a key that comes back is seen as
+    the same key."""
+
     def __init__(self):
         patch_ciphers()
         import aiohomekit.controller.ble.pairing as bp
+        from ref.c06acc import PairVerifyAccessory
         self.bp = bp
         self.loop = get_loop()
         self.reqs = Requests(self.loop)
-        self.epoch = -1
+        ids = ble_identities()
+        self.acc = PairVerifyAccessory(ids["acc_id"], ids["acc_ltsk"], ids["ctrl_id"], ids["ctrl_ltpk"])
+        self.epoch = -1          # controller side: epoch id of the key bytes in use
+        self.acc_epoch = -1      # accessory side: sessions it established - 1
         self.acc_keys = {}
         self.client = None
         ctrl = types.SimpleNamespace(_char_cache=types.SimpleNamespace(get_map=lambda _id: None, async_create_or_update_map=lambda *a, **k: None))
-        pdata = {"AccessoryPairingID": "00:00:00:00:00:01", "AccessoryAddress": "AA:BB:CC:DD:EE:FF", "Connection": "BLE",
-                 "iOSPairingId": "x", "AccessoryLTPK": "00" * 32, "iOSDeviceLTSK": "00" * 32, "iOSDeviceLTPK": "00" * 32}
+        pdata = {"AccessoryPairingID": ids["acc_id"].decode(), "AccessoryAddress": "AA:BB:CC:DD:EE:FF", "Connection": "BLE",
+                 "iOSPairingId": ids["ctrl_id"].decode(), "AccessoryLTPK": ids["acc_ltpk"].hex(),
+                 "iOSDeviceLTSK": ids["ctrl_seed"].hex(), "iOSDeviceLTPK": ids["ctrl_ltpk"].hex()}
         self.pairing = bp.BlePairing(ctrl, pdata, device=types.SimpleNamespace(address="AA:BB:CC:DD:EE:FF", name="c06"))
         self.pairing._accessories_state = types.SimpleNamespace(accessories=[1], config_num=0, broadcast_key=None, state_num=None)
         self.char = types.SimpleNamespace(service=types.SimpleNamespace(type="svc"), type="chr", iid=7)
@@ -488,22 +562,36 @@ class BleRun:
         self.cache = {}
         self.old_cache = {}
         self.srv = 0
+        self.pv_buf = None
+        self.pv_reply = b""
+        self.new_secret = None
+        self.sessions = []       # how each session came about: "full" / "resume"
         self.step(("RC", 0, 0))
 
-    # seams: the connection factory and the pair-verify state machine driver
+    # seam: the connection factory
     async def _establish(self, device, name, disconnected_cb, **kw):
         self.client = FakeGatt(self, disconnected_cb)
         return self.client
 
-    async def _drive(self, client, characteristic, state_machine):
-        self.old_cache = dict(self.cache)
-        self.cache = {}
-        self.epoch += 1
-        self.srv = 0
-        a2c, c2a = TRACE.register(self.epoch, "a"), TRACE.register(self.epoch, "c")
-        self.acc_keys[self.epoch] = aead(a2c)
-        keys = {b"Control-Write-Encryption-Key": c2a, b"Control-Read-Encryption-Key": a2c}
-        return b"sess%d" % self.epoch, (lambda salt, info: keys[info])
+    # ---- pair-verify characteristic (unencrypted HAP-BLE PDUs)
+    def pv_write(self, data):
+        from ref.tlv8 import ref_decode, ref_encode
+        if not data[0] & 0x80:
+            self.pv_tid = data[2]
+            self.pv_total = struct.unpack("<H", data[5:7])[0] if len(data) >= 7 else 0
+            self.pv_buf = data[7:]
+        else:
+            self.pv_buf += data[2:]
+        if len(self.pv_buf) >= self.pv_total:
+            body = dict(ref_decode(self.pv_buf[:self.pv_total]) or [])
+            reply, secret = self.acc.handle(body.get(1, b""))
+            if secret is not None:
+                self.new_secret = secret
+            out = ref_encode([(1, reply)])
+            self.pv_reply = bytes([0x02, self.pv_tid, 0]) + struct.pack("<H", len(out)) + out
+
+    def pv_read(self):
+        return self.pv_reply
 
     def written(self, data):
         TRACE.wire(data)
@@ -512,8 +600,9 @@ class BleRun:
             self.cur_tid = pt[2]
             self.reads_done = 0
 
-    def frame(self, epoch, i, cache=True):
+    def frame(self, i):
         if i not in self.cache:
+            epoch = self.acc_epoch
             cont = self.cur_cont
             ident = bytes([epoch & 0xFF, i & 0xFF])
             if self.reads_done == 0:
@@ -533,10 +622,39 @@ class BleRun:
         self.reads_done += 1
         self.client.read_waiter.set_result(bytearray(data))
 
+    def reconnect(self, decline):
+        from ref.c06acc import session_keys
+        bp = self.bp
+        if decline:
+            self.acc.forget()
+        self.new_secret = None
+        saved = bp.establish_connection
+        bp.establish_connection = self._establish
+        try:
+            t = self.loop.create_task(self.pairing._populate_accessories_and_characteristics())
+            settle(self.loop)
+            if not t.done():
+                t.cancel()
+                settle(self.loop)
+                raise RuntimeError("BLE reconnect did not complete")
+            t.result()
+        finally:
+            bp.establish_connection = saved
+        if self.new_secret is not None:
+            # the accessory starts a new session with the keys IT derived
+            c2a, a2c = session_keys(self.new_secret)
+            self.acc_epoch += 1
+            self.acc_keys[self.acc_epoch] = aead(a2c)
+            self.old_cache, self.cache = self.cache, {}
+            self.srv = 0
+            self.sessions.append(self.acc.last)
+        cur = TRACE.current.get("c")
+        if cur is not None:
+            self.epoch = TRACE.keys[cur][0]
+
     def step(self, ev):
         from bleak.exc import BleakError
         k, a, b = ev
-        bp = self.bp
         if k == "S":
             self.conts.append(b)
             self.reqs.start(self.epoch, self.pairing._async_request(self.opcode(), self.char, b"y" * a))
@@ -550,17 +668,18 @@ class BleRun:
                     i = self.srv + a
                 if k in ("N", "R", "F"):
                     self.srv = max(self.srv, i + 1)
-                    self.give(self.frame(self.epoch, i))
+                    self.give(self.frame(i))
                 elif k == "C":
-                    f = bytearray(self.frame(self.epoch, self.srv))
+                    f = bytearray(self.frame(self.srv))
                     self.srv += 1
                     f[-1] ^= 1
                     self.give(bytes(f))
-                elif k == "O" and self.epoch > 0:
+                elif k == "O" and self.acc_epoch > 0:
                     old = self.old_cache.get(a)
                     if old is None:
-                        old = self.acc_keys[self.epoch - 1].encrypt(nonce_bytes(a), bytes([0x02, self.cur_tid, 0, 0, 0]), b"")
-                        TRACE.frames[old] = (self.epoch - 1, "a", a)
+                        old = self.acc_keys[self.acc_epoch - 1].encrypt(nonce_bytes(a), bytes([0x02, self.cur_tid, 0, 0, 0]), b"")
+                        TRACE.frames[old] = (self.acc_epoch - 1, "a", a)
+                        self.old_cache[a] = old
                     self.give(old)
         elif k == "X":
             t = self.reqs.inflight()
@@ -575,21 +694,8 @@ class BleRun:
                 self.client.drop()
                 if w is not None and not w.done():
                     w.set_exception(BleakError("disconnected"))
-        elif k == "RC":
-            saved = (bp.establish_connection, bp.drive_pairing_state_machine, bp.get_session_keys)
-            bp.establish_connection = self._establish
-            bp.drive_pairing_state_machine = self._drive
-            bp.get_session_keys = lambda *a, **kw: None
-            try:
-                t = self.loop.create_task(self.pairing._populate_accessories_and_characteristics())
-                settle(self.loop)
-                if not t.done():
-                    t.cancel()
-                    settle(self.loop)
-                    raise RuntimeError("BLE reconnect did not complete")
-                t.result()
-            finally:
-                bp.establish_connection, bp.drive_pairing_state_machine, bp.get_session_keys = saved
+        elif k in ("RC", "RD"):
+            self.reconnect(decline=(k == "RD"))
         settle(self.loop)
         self.reqs.collect()
 
@@ -703,7 +809,7 @@ class CoapRun:
         elif k == "T":
             if self.waiting():
                 self.stub.waiter.set_exception(NetworkError("timeout"))
-        elif k == "RC":
+        elif k in ("RC", "RD"):
             if self.waiting():
                 self.stub.waiter.set_exception(NetworkError("context shut down"))
             settle(self.loop)
@@ -821,6 +927,10 @@ def oracle(transport, items):
                 bad.append((f"{label}:replay-accepted:{cause}",
                             f"frame {n} of key (epoch {it[1]}, {it[2]}) accepted {what} (highest accepted before: {maxacc[ch]})"))
             maxacc[ch] = max(maxacc.get(ch, -1), n)
+        elif kind == "rekey":
+            bad.append((f"{transport}:session-key-reused",
+                        f"the key bytes of key (epoch {it[1]}, {it[2]}) were installed again as the key of a later session "
+                        "(counters restart at 0 under the same key)"))
         elif kind == "out":
             if it[3] != "ok" and transport in ("ip", "ble"):
                 failed.setdefault(it[1], idx)
@@ -855,7 +965,7 @@ def random_histories(transport, r, count, maxlen):
                 else:
                     h += r.choice([["S1.0", "N"], ["S1.0", "N"], ["EN"]])
             else:
-                kinds = ["S", "N", "R", "F", "C", "X", "T", "RC", "O", "D"]
+                kinds = ["S", "N", "R", "F", "C", "X", "T", "RC", "RD", "O", "D"]
                 if transport == "coap":
                     kinds += ["EN", "ER", "EF", "EC", "R", "F", "R"]
                 k = r.choice(kinds)
@@ -892,6 +1002,10 @@ DIRECTED = {
         ["S30.1", "S1.0", "N", "N", "C", "S1.0", "RC", "S0.0", "X"],
         ["S46.1", "N", "R0", "S1.0", "RC", "S1.0", "O0", "RC", "S1.0", "N"],
         ["S1.0", "D", "S1.0", "RC", "S1.0", "N"],
+        # full verify, traffic, drop, RESUMED session, traffic, replay of a session-1 frame, resumed again, declined
+        ["S1.0", "N", "D", "RC", "S1.0", "N", "S1.0", "O0", "RC", "S30.1", "N", "N", "X", "RD", "S1.0", "N", "S1.0", "O0"],
+        ["S1.0", "N", "S1.0", "N", "X", "RC", "S1.0", "O1"],
+        ["D", "RD", "S1.0", "N", "D", "RC", "S1.0", "N", "D", "RC", "S1.0", "O0"],
     ],
 }
 
